@@ -88,6 +88,9 @@ func genSetCase(s core.Source) setCase {
 	if (c.Elem == "any" || c.Elem == "set") && c.Collator == "coarse" {
 		c.Collator = "reversed"
 	}
+	if c.Elem != "any" && s.Choose(6, "tight") == 0 {
+		c.Collator = "tight"
+	}
 	if c.Collator == "default" {
 		c.Ctor = core.Pick(s, []string{"Make", "MakeWithCollator", "MakeFromArray", "MakeFromSequence", "MakeFromSequence/reversed-set", "MakeFromSequence/coarse-set"}, "ctor")
 		if c.Elem == "any" || c.Elem == "set" {
@@ -256,6 +259,12 @@ func intOfCode(c int) int {
 	return c*3 - 40
 }
 
+// tightMaximum is the nesting depth of the elements of the named domain: slices of ints and sets of ints are
+// one level deep, plain values none (the limit must be at least 1)
+func tightMaximum(elem string) int {
+	return 1
+}
+
 func floorDiv(a, b int) int {
 	q := a / b
 	if (a%b != 0) && ((a < 0) != (b < 0)) {
@@ -319,6 +328,10 @@ func execSet[E any](c setCase, se setElem[E]) (res core.Result) {
 	case "default":
 		refCmp = natural
 		collator = def
+	case "tight":
+		// the library's collator with a traversal limit that is exactly the nesting depth of the elements
+		refCmp = natural
+		collator = age.Collator[E]().MakeWithMaximum(tightMaximum(se.name))
 	case "reversed":
 		refCmp = func(a, b int) (int, bool) { r, ok := natural(a, b); return -r, ok }
 		if se.less != nil {
